@@ -29,6 +29,7 @@ Init ==
     \/ \E s \in ScrShapes : c = <<"scr", s>>
     \/ \E s \in OutShapes : c = <<"out", s>>
     \/ \E sl \in IdSlots, ic \in IdCases : c = <<"id", sl, ic>>
+    \/ \E sl \in IdSlots : c = <<"slot", sl>>
     \/ \E p \in Utf8Patterns : c = <<"utf8", p>>
     \/ \E b \in ByteSeqs : c = <<"bytes", b>>
     \/ \E s \in ScalarSeqs : c = <<"scalars", s>>
@@ -65,6 +66,7 @@ Law ==
       [] c[1] = "scr" -> ShapeLaw("in", ScrTree(c[2], NoOv), ScrMsg(c[2]))
       [] c[1] = "out" -> ShapeLaw("out", OutTree(c[2], NoOv), OutMsg(c[2]))
       [] c[1] = "id" -> IdLaw(c[2], c[3])
+      [] c[1] = "slot" -> Decode(c[2][1], SlotTree(c[2], ID(c[2][3]))) # Fail
       [] c[1] = "utf8" -> Utf8Valid(c[2][2]) <=> c[2][3]
       [] c[1] = "bytes" -> /\ IsBytes20(c[2])
                            /\ IdAccept(IdEncode(c[2]))
@@ -98,6 +100,9 @@ Emit ==
       [] c[1] = "id" ->
            PrintT(<<"IDCASE", ToJson([dir |-> c[2][1], slot |-> <<c[2][2], c[2][3]>>, idcase |-> c[3],
                                       tree |-> SlotTree(c[2], IdString(c[3]))])>>)
+      [] c[1] = "slot" ->    \* a tree with a hole (5000000) for identifier strings chosen by the orchestration
+           PrintT(<<"SLOT", ToJson([dir |-> c[2][1], slot |-> <<c[2][2], c[2][3]>>,
+                                    tree |-> SlotTree(c[2], <<5000000>>)])>>)
       [] c[1] = "utf8" ->
            PrintT(<<"UTF8", ToJson([name |-> c[2][1], bytes |-> c[2][2], valid |-> c[2][3]])>>)
       [] OTHER -> TRUE
